@@ -4,6 +4,7 @@
    uninterpreted; ctx_* are the parts of verification / execution that read covered fields only. *)
 From Coq Require Import Permutation.
 From ZV Require Import Prelude PoWProofs Block BlockProofs CodecPb CodecPbProofs Dec DecProofs BlockAccept BlockAcceptProofs.
+From ZV Require Import GoSem Abi AbiCanon AbiCanonProofs.
 Open Scope Z_scope.
 
 (* the pre-image of AccountBlock.ComputeHash determines every covered field *)
@@ -119,6 +120,28 @@ Theorem C13_contract_uncovered_refuted : forall H desc_rest (g x : AB) base tota
   serialize_ab x' <> serialize_ab x.
 Proof. exact contract_uncovered_variant. Qed.
 
+(* the call data of an accepted call of an embedded method (selector sel, argument types tys) is stored as it was
+   delivered and is the canonical packing of the arguments it decodes to: ValidateSendBlock re-packs what it decoded
+   and the hash is checked before and after (repack = PackMethod o UnpackMethod, decoder model Abi.v, packer model
+   AbiCanon.v, both compared with the implementation on canonical, non-canonical and damaged call data) *)
+Theorem C13_call_data_canonical : forall (H : bytes -> bytes),
+  (forall x, length (H x) = 32%nat) ->
+  forall sel tys static_ok (x s : AB), ab_wf x ->
+  accept_call H sel tys static_ok x = Some s ->
+  (H (ab_preimage H x) = H (ab_preimage H s) -> ab_preimage H x = ab_preimage H s) ->
+  (H (ab_data (body x)) = H (ab_data (body s)) -> ab_data (body x) = ab_data (body s)) ->
+  s = x /\ is_canonical sel tys (ab_data (body s)).
+Proof. exact call_data_canonical. Qed.
+
+(* why the re-packing matters: a ValidateSendBlock that returns before it for some input lets every decodable
+   non-canonical encoding of that input through, stored as delivered *)
+Theorem C13_skipped_repack_refuted : forall H sel tys static_ok (x : AB) d',
+  hash_ok H x = true ->
+  repack sel tys (ab_data (body x)) = Some d' -> d' <> ab_data (body x) ->
+  static_ok (ab_data (body x)) = true ->
+  accept_call_gen H sel tys static_ok (fun _ => true) x = Some x /\ ~ is_canonical sel tys (ab_data (body x)).
+Proof. exact skipped_repack_refuted. Qed.
+
 (* ---- non-vacuity *)
 Example C13_shape_example : pb_ok ex_block.
 Proof. exact ex_block_ok. Qed.
@@ -133,9 +156,26 @@ Example C13_accept_example :
   accept_user ex_H (fun _ _ _ => true) (fun _ => 0 :: repeat 2 19) (fun _ => Some (21000, 21204)) (fun _ => true) ex_user
   = Some (ABNode (set_plasma (body ex_user) 21204 21000) []).
 Proof. vm_compute. reflexivity. Qed.
-(* a forged descendant (7777 instead of 50, Hash field kept) passes the pre-fix acceptance and is refused by the
-   fixed one, while the regenerated block itself is accepted; the hash here is a toy function of the input *)
+(* an accepted call exists, and a decodable non-canonical encoding of the same arguments is refused:
+   SetTokenTuple-shaped arguments (four empty lists), all four offsets pointing at one shared zero word *)
 Definition ex_Hsum (b : bytes) : bytes := repeat (1 + fold_right Z.add 0 b) 32.
+Definition ex_sel : bytes := [1; 2; 3; 4].
+Definition ex_call_h (h d : bytes) : AB :=
+  ABNode (mkABody 1 3 2 h (repeat 0 32) 2 (repeat 1 32) 9 (0 :: repeat 2 19) (repeat 3 20) 0 (repeat 4 10)
+                  (repeat 0 32) (ex_sel ++ d) 21000 0 (repeat 0 8) 0 0 (repeat 8 32) (repeat 5 32) (repeat 6 64)) [].
+(* the block with these call data, correctly hashed (the hash here is a toy function of the input) *)
+Definition ex_call (d : bytes) : AB := ex_call_h (ex_Hsum (ab_preimage ex_Hsum (ex_call_h [] d))) d.
+Definition ex_canon : bytes :=
+  word256 128 ++ word256 160 ++ word256 192 ++ word256 224 ++ word256 0 ++ word256 0 ++ word256 0 ++ word256 0.
+Example C13_call_example :
+  accept_call ex_Hsum ex_sel ex_tys (fun _ => true) (ex_call ex_canon) = Some (ex_call ex_canon) /\
+  hash_ok ex_Hsum (ex_call ex_shared) = true /\
+  repack ex_sel ex_tys (ex_sel ++ ex_shared) = Some (ex_sel ++ ex_canon) /\
+  accept_call ex_Hsum ex_sel ex_tys (fun _ => true) (ex_call ex_shared) = None /\
+  accept_call_gen ex_Hsum ex_sel ex_tys (fun _ => true) (fun _ => true) (ex_call ex_shared) = Some (ex_call ex_shared).
+Proof. vm_compute. repeat split; reflexivity. Qed.
+(* a forged descendant (7777 instead of 50, Hash field kept) passes the pre-fix acceptance and is refused by the
+   fixed one, while the regenerated block itself is accepted *)
 Definition mk_desc (amount : Z) (h : bytes) : AB :=
   ABNode (mkABody 1 3 4 h (repeat 0 32) 2 (repeat 1 32) 9 (1 :: repeat 2 19) (repeat 3 20) amount (repeat 4 10)
                   (repeat 0 32) [] 0 0 (repeat 0 8) 0 0 (repeat 0 32) [] []) [].
